@@ -40,6 +40,10 @@
 (*               or dict left it partly converted, and the next member is  *)
 (*               tried on the converted object (Union[List[int],List[str]] *)
 (*               rejects ["1","a"], Union[List[str],List[int]] accepts).   *)
+(*   setListing  a set with two or more members is turned into a List or   *)
+(*               Tuple: the order is whatever Python lists the set in, so  *)
+(*               Union[Tuple[int,str],Set[str]] may read its own result    *)
+(*               {'1','A'} back as (1,'A').                                *)
 (*   litEq       Literal membership is tested with == : True and 1.0 pass  *)
 (*               for Literal[1].                                           *)
 (*   dictKey     Dict keys are not validated (only int(k) for Dict[int,.]).*)
@@ -48,6 +52,14 @@
 (*   yamlFloatStr (dump) the str '1e3' is written plain and read back as a *)
 (*               float (the loader's float pattern is wider than the       *)
 (*               dumper's).                                                *)
+(*   serLenient  (dump) with serialize=True a member of a Union that never  *)
+(*               accepted the value can still write it: the leaf branch    *)
+(*               loads strings ('1' is written as 1 by an int member) and  *)
+(*               Dict[int,.] applies str(k) to any key.  Union[Dict[int,   *)
+(*               int],Dict[str,str]] writes {'a': '1'} as a: 1, which does *)
+(*               not parse again.                                          *)
+(*   jsonKeyCollision (dump) a dict with the keys 1 and '1' is written by  *)
+(*               json.dumps with the key "1" twice.                        *)
 (*   leftObject / leftSet (dump) with serialize=True the Enum branch       *)
 (*               returns ANY foreign value unchanged instead of raising,   *)
 (*               so in a Union an Enum member written first wins and the   *)
@@ -326,6 +338,9 @@ FirstFail(rs, len) == IF \E n \in 1..len : ~rs[n].ok THEN Min({n \in 1..len : ~r
 ElemsAfter(s, rs, inplace) ==
   LET f == FirstFail(rs, Len(s))
   IN [n \in 1..Len(s) |-> IF f # 0 /\ n > f THEN s[n] ELSE IF f = n \/ ~inplace THEN rs[n].m ELSE rs[n].v]
+\* list(val) of a set with two or more members: Python does not say in which order (only matters where the
+\* order stays visible: List, Tuple)
+Listing(t, val) == IF t.k # "set" /\ val.k = "set" /\ Cardinality(val.v) > 1 THEN {"setListing"} ELSE {}
 \* the deviations met before the loop stopped (f = 0: all of them)
 DevsOf(rs, len) == LET f == FirstFail(rs, len) IN UNION {rs[n].dev : n \in {n \in 1..len : f = 0 \/ n <= f}}
 Rebuild(val, elems) == IF val.k \in {"list", "tuple"} THEN [k |-> val.k, v |-> elems] ELSE val      \* members of a set cannot change
@@ -362,7 +377,7 @@ AlgAdapt(t, val, orig, top) ==
               IF t.k = "tuple" /\ Len(s) # Len(t.v) THEN Er({}, val)
               ELSE LET rs == [n \in 1..Len(s) |-> AlgAdapt(ElemT(t, n), s[n], orig, FALSE)]
                        vs == [n \in 1..Len(s) |-> rs[n].v]
-                       dv == DevsOf(rs, Len(s))
+                       dv == DevsOf(rs, Len(s)) \cup Listing(t, val)
                        mm == Rebuild(val, ElemsAfter(s, rs, FALSE))
                    IN IF FirstFail(rs, Len(s)) # 0 THEN Er(dv, mm)
                       ELSE IF t.k = "set" THEN (IF \E n \in 1..Len(s) : ~Hashable(vs[n]) THEN Er(dv, mm)   \* set(val): TypeError
@@ -372,11 +387,11 @@ AlgAdapt(t, val, orig, top) ==
          IF ~IsSeqLike(val) THEN Er({}, val)                                             \* dict / str / scalars are refused
          ELSE LET s == AsSeq(val)                                                        \* a tuple / set is copied (:888-889),
                   inplace == val.k = "list"                                              \* a list is converted IN PLACE (:899)
-              IN IF Len(t.v) = 0 THEN Ok(ListV(s), {}, val)
+              IN IF Len(t.v) = 0 THEN Ok(ListV(s), Listing(t, val), val)
                  ELSE LET rs == [n \in 1..Len(s) |-> AlgAdapt(t.v[1], s[n], orig, FALSE)]
                           mm == Rebuild(val, ElemsAfter(s, rs, inplace))
-                      IN IF FirstFail(rs, Len(s)) # 0 THEN Er(DevsOf(rs, Len(s)), mm)
-                         ELSE Ok(ListV([n \in 1..Len(s) |-> rs[n].v]), DevsOf(rs, Len(s)), mm)
+                      IN IF FirstFail(rs, Len(s)) # 0 THEN Er(DevsOf(rs, Len(s)) \cup Listing(t, val), mm)
+                         ELSE Ok(ListV([n \in 1..Len(s) |-> rs[n].v]), DevsOf(rs, Len(s)) \cup Listing(t, val), mm)
     [] t.k = "dict" ->                                                                   \* :902-934
          IF val.k # "dict" THEN Er({}, val)
          ELSE IF Len(t.v) = 0 THEN Ok(val, {}, val)
@@ -452,7 +467,8 @@ RECURSIVE AlgSer(_, _), AlgSerUnion(_, _, _)
 AlgSer(t, val) ==
   CASE t.k = "any" -> IF val.k = "enum" THEN Ok(StrV(val.v[2]), {}, val) ELSE IF IsStr(val) THEN Ok(LoadSimple(val.v), {}, val) ELSE Ok(val, {}, val)
     [] t.k = "literal" -> IF \E i \in 1..Len(t.v) : PyEq(val, t.v[i]) THEN Ok(val, {}, val) ELSE Er({}, val)
-    [] t.k \in LeafKinds -> AlgAdapt(t, val, NoneV, TRUE)
+    [] t.k \in LeafKinds -> LET r == AlgAdapt(t, val, NoneV, TRUE)                         \* a string is LOADED here too (:781-783)
+                            IN IF r.ok /\ IsStr(val) /\ t.k # "str" THEN Ok(r.v, {"serLenient"}, val) ELSE r
     [] t.k = "enum" -> IF val.k = "enum" /\ val.v[1] = EnumCls(t) THEN Ok(StrV(val.v[2]), {}, val)
                        ELSE Ok(val, {}, val)          \* :809-811  anything else is returned as it is -- this branch never raises
     [] t.k = "union" -> AlgSerUnion(SortUnion(t.v, val), 1, val)
@@ -467,15 +483,16 @@ AlgSer(t, val) ==
                    IN IF \E n \in 1..Len(s) : ~rs[n].ok THEN Er({}, val)
                       ELSE IF t.k = "set"                                                \* distinct members may be written alike
                            THEN Ok(BagV(BagOf(vs)), dv \cup (IF Cardinality(Range(vs)) < Len(vs) THEN {"serCollision"} ELSE {}), val)
-                           ELSE Ok(ListV(vs), dv, val)
+                           ELSE Ok(ListV(vs), dv \cup Listing(t, val), val)
     [] t.k = "dict" ->
          IF val.k # "dict" THEN Er({}, val)
          ELSE IF Len(t.v) = 0 THEN Ok(val, {}, val)
          ELSE LET ps == val.v
                   rs == [n \in 1..Len(ps) |-> AlgSer(t.v[2], ps[n][2])]
                   cast(key) == IF t.v[1].k = "int" THEN StrOfInt(key) ELSE key            \* cast = str if serialize
+                  kd == IF t.v[1].k = "int" /\ \E n \in 1..Len(ps) : ps[n][1].k # "int" THEN {"serLenient"} ELSE {}   \* str(k) never fails
               IN IF \E n \in 1..Len(ps) : ~rs[n].ok THEN Er({}, val)
-                 ELSE Ok(DictV([n \in 1..Len(ps) |-> <<cast(ps[n][1]), rs[n].v>>]), UNION {rs[n].dev : n \in 1..Len(ps)}, val)
+                 ELSE Ok(DictV([n \in 1..Len(ps) |-> <<cast(ps[n][1]), rs[n].v>>]), kd \cup UNION {rs[n].dev : n \in 1..Len(ps)}, val)
 AlgSerUnion(ts, i, val) == IF i > Len(ts) THEN Er({}, val)
                            ELSE LET r == AlgSer(ts[i], val) IN IF r.ok THEN r ELSE AlgSerUnion(ts, i + 1, val)
 \* what the dumpers make of the tree that serialisation produced
@@ -485,9 +502,16 @@ Leaves(y) == CASE y.k \in {"list", "tuple"} -> UNION {Leaves(y.v[n]) : n \in 1..
                [] y.k = "bag"  -> UNION {Leaves(e) : e \in DOMAIN y.v}
                [] y.k = "dict" -> UNION {Leaves(y.v[n][1]) \cup Leaves(y.v[n][2]) : n \in 1..Len(y.v)}
                [] OTHER -> {y}
+\* a dict with the keys 1 and '1': json.dumps writes both as "1"
+RECURSIVE JsonKeyClash(_)
+JsonKeyClash(y) == CASE y.k \in {"list", "tuple"} -> \E n \in 1..Len(y.v) : JsonKeyClash(y.v[n])
+                     [] y.k = "dict" -> (\E a, b \in 1..Len(y.v) : y.v[a][1].k = "int" /\ y.v[b][1] = StrOfInt(y.v[a][1]))
+                                        \/ \E n \in 1..Len(y.v) : JsonKeyClash(y.v[n][2])
+                     [] OTHER -> FALSE
 TreeDevs(y) == (IF \E l \in Leaves(y) : IsStr(l) /\ l.v \in PlainFloatTexts THEN {"yamlFloatStr"} ELSE {})
           \cup (IF \E l \in Leaves(y) : l.k \in {"enum", "exc"} THEN {"leftObject"} ELSE {})      \* neither dumper can write it
           \cup (IF \E l \in Leaves(y) : l.k = "set" THEN {"leftSet"} ELSE {})                      \* json cannot write it
+          \cup (IF JsonKeyClash(y) THEN {"jsonKeyCollision"} ELSE {})
 AlgDump(t, val) == LET s == AlgSer(t, val) IN IF s.ok THEN Ok(s.v, s.dev \cup TreeDevs(s.v), val) ELSE s
 \* the tree as a loader returns it: every set that was written is a list again (in SOME order)
 RECURSIVE Unbag(_)
